@@ -26,6 +26,9 @@ CHECKS = {
  'C14': dict(engine='RVC', cat='proof', tech=TECH_RVC,
    text='The real huffmanTree<GLink>::makeTree and findHoppingDestination are executed symbolically for positive symbolic rates over every ordering the comparators can observe; on every path each event owns a set of lookup arguments of total length rate/sum(rates), thresholds are nested, every event is a leaf once (bounded in the number of events: 4 quick / 5 thorough). Marcus rates: positivity, linearity in J^2 and detailed balance k12/k21 = exp(dG/kT) for all inputs; escape rate = sum of rates; waiting time dt*k = -log(1-u).',
    note='Assumes real arithmetic, exp/log/sqrt by their contracts, std::priority_queue/std::vector as models, one admissible order for ties; the distribution claims rest on the uniformity of the random generator (not decided). Field-term sign convention taken from the code/anchor.', ref='DESIGN.md section 5 C14'),
+ 'C15': dict(engine='RVC', cat='proof', tech=TECH_RVC,
+   text='The instantiated VSiteA<4>/VSiteA<9>, CalcStaticEnergy_site, ApplyStaticField_site and FillTholeInteraction bodies (with the AxA helper executed from its own AST) carry contracts from the property: exchange symmetry for all 9 rank combinations, E = q1 q2/R for charges, invariance under a common translation, rows of the interaction vector = gradient / real-spherical Hessian combinations of the potential row (which together with the Coulomb case and exchange symmetry pins every interaction tensor to point-charge physics), field accumulated on a polarisable site = dE/d(dipole), Thole tensor symmetric, traceless and equal to (1-3aa^T)/R^3 in the undamped branch, documented lambda3/lambda5 factors in the damped branch. Identities over all real inputs.',
+   note='Real arithmetic; rotation invariance with rotated moments, the point-charge-cluster limit, the large-separation limit of the damping and the segment-level double loops are not decided (partial claim).', ref='DESIGN.md section 5 C15'),
  'C18': dict(engine='CCV+RVC', cat='proof', tech=TECH_CCV + '; ' + TECH_RVC,
    text='wildcmp: functional contract (result != 0 <=> glob match) checked against the recursive specification for all pattern/string buffers up to N bytes (bounded, N = 4 quick / 6 thorough) plus an unbounded memory-safety and termination proof by loop contracts on the verbatim body; RangeParser: acceptance contract of ParseBlock (stride != 0, direction-consistent), loop-free step contract of iterator::operator++ (induction gives exact in-order enumeration and termination, negative strides included), print/parse round trip; IndexParser::CreateIndexString run-length contract for up to 4 (6) indices.',
    note='Trusted: CBMC, z3, string splitting / std::stoi / std::to_string / std::set as assumed contracts; bounds as stated (reported under coverage.bounded). Tokenizer, BeadList::Generate and CreateIndexVector are not decided.', ref='DESIGN.md section 5 C18'),
